@@ -316,7 +316,8 @@ class C03(Check):
         import os
         from simkit.core import uncanon
         d = os.path.join(os.path.dirname(os.path.abspath(__file__)), "directed")
-        return [uncanon(json.load(open(os.path.join(d, "flo-stop-then-restart-nested.json"))))]
+        # ... and a framer cut while a conditional auxiliary of its top frame runs and its active frame is under a later child
+        return [uncanon(json.load(open(os.path.join(d, n + ".json")))) for n in ("flo-stop-then-restart-nested", "flo-cut-while-suspended-under-later-child")]
 
 
 def _has(fr_ast, frame, ctx):
